@@ -648,6 +648,19 @@ func (ndb *nodeDB) DeleteVersionsFrom(fromVersion int64) error {
 	}
 
 	// NOTICE: we don't touch fast node indexes here, because it'll be rebuilt later because of version mismatch.
+	// The mismatch must not be undone by new versions that are committed while the index is
+	// disabled and reach the recorded version number again, so the record is dropped.
+	if ndb.hasUpgradedToFastStorage() {
+		ndb.mtx.Lock()
+		err := ndb.batch.Set(metadataKeyFormat.Key([]byte(storageVersionKey)), []byte(defaultStorageVersionValue))
+		if err == nil {
+			ndb.storageVersion = defaultStorageVersionValue
+		}
+		ndb.mtx.Unlock()
+		if err != nil {
+			return err
+		}
+	}
 
 	ndb.resetLatestVersion(dumpFromVersion - 1)
 
